@@ -269,10 +269,10 @@ class C09(Check):
             yield dict(base, schema=["null", {"type": "enum", "name": "Only", "symbols": ["x"]}], datum="x", opts=opts)
 
     # ------------------------------------------------------------------
-    def _verify(self, node, table, d, it, tn, labels, js):
+    def _verify(self, node, table, d, it, tn, labels, js, is_default=False):
         k = node["k"]
         if k == "ref":
-            return self._verify(table[node["name"]], table, d, it, tn, labels, js)
+            return self._verify(table[node["name"]], table, d, it, tn, labels, js, is_default)
         if k == "array":
             for x in d:
                 self._verify(node["items"], table, x, it, tn, labels, js)
@@ -283,19 +283,28 @@ class C09(Check):
             if "-type" in d:
                 labels.add("hint:-type")
             for f in node["fields"]:
+                dflt = False
                 if f["name"] in d:
                     v = d[f["name"]]
                 elif "default" in f:
                     v = B.default_datum(f["type"], table, f["default"])
+                    dflt = True
                 else:
                     v = None
-                self._verify(f["type"], table, v, it, tn, labels, js)
+                self._verify(f["type"], table, v, it, tn, labels, js, dflt)
         elif k == "union":
             try:
                 idx = next(it)
             except StopIteration:
                 raise Violation("fewer-unions-than-datum", f"bytes hold fewer union indices than the datum has unions; schema={js!r:.300}")
             r = S.select(node, table, d, tn)
+            if is_default and S.conforms(node["branches"][0], table, d, tn):
+                # the value comes from the field's default: the specification assigns it to the FIRST branch (the selection
+                # rule of the statement is about data the caller supplies)
+                labels.add("default-of-union-field")
+                if r != ("exact", 0):
+                    labels.add("default-under-a-branch-the-selection-rule-would-not-take")
+                r = ("exact", 0)
             names = [M.branch_name(b, table) for b in node["branches"]]
             if r[0] == "error":
                 raise Violation("wrote-nonconforming", f"writer produced branch {idx} for {d!r:.100} although {r[1]}; union={names}")
@@ -459,7 +468,10 @@ class C09(Check):
             raise Violation("more-unions-than-datum", "bytes hold more union indices than the datum has unions")
         # closure under return_named_type
         back = guard("read-own-output", fastavro.schemaless_reader, io.BytesIO(blob), schema, return_named_type=True)
-        if case.get("raw"):
+        if "default-under-a-branch-the-selection-rule-would-not-take" in labels:
+            # the read-back value of an omitted field is ordinary caller data when written again: it may take another branch
+            labels.add("closure-skipped:default-of-union-field")
+        elif case.get("raw"):
             # a raw value (bytes, int, str) written under a logical branch comes back as the logical Python type, i.e. as
             # a different datum, which may legitimately select another branch
             labels.add("closure-skipped:raw-under-logical")
